@@ -892,7 +892,7 @@ func (l *Lowerer) lowerGlobalVar(v *parser.VarDecl) error {
 		return fmt.Errorf("global var %s: type annotation required without initializer", v.Name)
 	}
 
-	space := l.addressSpace(v.AddressSpace)
+	space := l.addressSpace(v.AddressSpace, v.Span)
 
 	// Samplers and textures must use SpaceHandle (maps to UniformConstant in SPIR-V)
 	// This is required by Vulkan: "Variables identified with the UniformConstant
@@ -952,8 +952,11 @@ func (l *Lowerer) lowerGlobalVar(v *parser.VarDecl) error {
 			accessMode = ir.StorageRead
 		case "read_write":
 			accessMode = ir.StorageReadWrite
-		default:
+		case "":
 			// Default for storage without explicit access mode is read-only
+			accessMode = ir.StorageRead
+		default:
+			l.addError(fmt.Sprintf("global var '%s': unknown access mode '%s'", v.Name, v.AccessMode), v.Span)
 			accessMode = ir.StorageRead
 		}
 	}
@@ -10445,7 +10448,7 @@ func (l *Lowerer) resolveType(typ parser.Type) (ir.TypeHandle, error) {
 		if err != nil {
 			return 0, err
 		}
-		space := l.addressSpace(t.AddressSpace)
+		space := l.addressSpace(t.AddressSpace, t.Span)
 		return l.registerType("", ir.PointerType{Base: pointee, Space: space}), nil
 	case *parser.BindingArrayType:
 		base, err := l.resolveType(t.Element)
@@ -13233,7 +13236,7 @@ func (l *Lowerer) collectBinding(attrs []parser.Attribute) *ir.Binding {
 		case "builtin":
 			if len(attr.Args) > 0 {
 				if id, ok := attr.Args[0].(*parser.Ident); ok {
-					var b ir.Binding = ir.BuiltinBinding{Builtin: l.builtin(id.Name)}
+					var b ir.Binding = ir.BuiltinBinding{Builtin: l.builtin(id.Name, id.Span)}
 					builtinBinding = &b
 				}
 			}
@@ -13705,11 +13708,12 @@ var builtinTable = map[string]ir.BuiltinValue{
 	"clip_distances":         ir.BuiltinClipDistance,
 }
 
-func (l *Lowerer) builtin(name string) ir.BuiltinValue {
+func (l *Lowerer) builtin(name string, span parser.Span) ir.BuiltinValue {
 	if b, ok := builtinTable[name]; ok {
 		return b
 	}
-	return ir.BuiltinPosition // Default
+	l.addError(fmt.Sprintf("unknown builtin value '%s'", name), span)
+	return ir.BuiltinPosition
 }
 
 // addressSpaceTable maps WGSL address space names to IR address spaces.
@@ -13725,11 +13729,14 @@ var addressSpaceTable = map[string]ir.AddressSpace{
 	"immediate":     ir.SpaceImmediate,
 }
 
-func (l *Lowerer) addressSpace(space string) ir.AddressSpace {
+func (l *Lowerer) addressSpace(space string, span parser.Span) ir.AddressSpace {
 	if s, ok := addressSpaceTable[space]; ok {
 		return s
 	}
-	return ir.SpaceFunction // Default
+	if space != "" {
+		l.addError(fmt.Sprintf("unknown address space '%s'", space), span)
+	}
+	return ir.SpaceFunction // no address space written
 }
 
 // isOpaqueResourceType checks if a type is an opaque resource (sampler or image/texture).
@@ -13851,7 +13858,10 @@ func (l *Lowerer) parseSampledScalarKind(param parser.Type) ir.ScalarKind {
 		return ir.ScalarUint
 	case "i32":
 		return ir.ScalarSint
+	case "f32":
+		return ir.ScalarFloat
 	default:
+		l.addError(fmt.Sprintf("a sampled texture takes f32, i32 or u32, not '%s'", named.Name), named.Span)
 		return ir.ScalarFloat
 	}
 }
@@ -13927,6 +13937,7 @@ func (l *Lowerer) parseStorageFormat(param parser.Type) ir.StorageFormat {
 	if format, ok := storageFormatTable[namedType.Name]; ok {
 		return format
 	}
+	l.addError(fmt.Sprintf("unknown texel format '%s'", namedType.Name), namedType.Span)
 	return ir.StorageFormatUnknown
 }
 
@@ -13947,7 +13958,8 @@ func (l *Lowerer) parseStorageAccess(param parser.Type) ir.StorageAccess {
 	case "atomic":
 		return ir.StorageAccessReadWrite
 	default:
-		return ir.StorageAccessWrite // Default to write
+		l.addError(fmt.Sprintf("unknown access mode '%s'", name), namedType.Span)
+		return ir.StorageAccessWrite
 	}
 }
 
